@@ -662,6 +662,14 @@ class IntervalInterp(object):
                 for x, y in ((m.a[0], m.a[1]), (m.a[1], m.a[0])):
                     cy = const_value(y)
                     kx = self.key_of(self.unwrap(x))
+                    if kx is None and cy == 128:
+                        # the input byte is read in place (`(p[i] & 0x80) != 0`): the read event itself carries the stop bit
+                        n_before = len(st.reads)
+                        xv0 = self.ev(x, st)
+                        if len(st.reads) > n_before and xv0 is not None and 0 <= xv0[0] and xv0[1] <= 255:
+                            if (a.op == '!=') == bool(label):
+                                st.stop = len(st.reads) - 1
+                            return
                     xv = self.ev(x, st) if kx is not None else None
                     if cy == 128 and kx is not None and xv is not None and 0 <= xv[0] and xv[1] <= 255:
                         setbit = (a.op == '!=') == bool(label)
